@@ -31,7 +31,7 @@ ASSUMPTIONS = [
 CASES = {"quick": 960, "thorough": 40000}
 MIN_CASES = {"quick": 240, "thorough": 10000}
 REQUIRED_COUNTERS = ["pairs_compared", "parent_pristine_checked", "fresh_interpreter_crosschecks", "probe:netlist", "probe:die", "probe:die_refine", "probe:alloc", "probe:stog",
-                     "probe:pb", "probe:legal", "probe:strop", "near_threshold_probes", "history_ops_executed", "history_scale_extreme_low", "history_scale_extreme_high", "history_near_copies_of_the_probe"]
+                     "probe:pb", "probe:legal", "probe:strop", "near_threshold_probes", "history_ops_executed", "history_scale_extreme_low", "history_scale_extreme_high", "history_near_copies_of_the_probe", "history_same_design_loaded_and_mutated"]
 SOFT_DEADLINE = {"quick": 240, "thorough": 3300}
 KINDS = ["netlist", "die", "die_refine", "alloc", "stog", "pb", "strop", "legal"]
 
@@ -195,6 +195,9 @@ def generate(rng, tier, i):
         elif hk == "legal" and hdim and not (1e-3 <= hdim / pdim <= 1e3):
             continue
         hist.append(hop)
+    if rng.random() < 0.4:
+        # the same design loaded earlier and then altered through the API (exposes parsed objects shared between loads)
+        hist.insert(rng.randint(0, len(hist)), {"k": "mutate_same", "probe": probe})
     if rng.random() < 0.5:
         for _ in range(rng.randint(1, 2)):
             nc = near_copy(rng, probe)
@@ -334,6 +337,8 @@ def check(case, ctx):
     for h in history:
         if h.get("_near_copy"):
             ctx.count("history_near_copies_of_the_probe")
+        if h.get("k") == "mutate_same":
+            ctx.count("history_same_design_loaded_and_mutated")
         rs = h.get("_rel_scale")
         if rs is not None and rs < 2e-3:
             ctx.count("history_scale_extreme_low")
